@@ -368,6 +368,8 @@ class QCow2Snapshot:
     def open(self) -> QCow2:
         disk = copy.copy(self.qcow2)
         disk.l1_table = self.l1_table
+        # The copy must not serve data that the original stream has buffered
+        disk._buf = None
         disk.seek(0)
         return disk
 
